@@ -84,9 +84,12 @@ Record ctx := Ctx {
   td : list nat;                    (* teardown stack, top = last *)
   evlog : list revent;
   next_local : nat;
-  calls : list (nat * nat);         (* ghost: factory id -> number of times its body was started
-                                       on behalf of this context *)
-  pending : list (nat * (factory * value)); (* suspended async lookups: token -> (factory, the object its body will return) *)
+  calls : list (key * nat);         (* ghost: factory (identified by its first key, unique within a
+                                       context) -> number of times its body was started on behalf
+                                       of this context *)
+  pending : list (nat * (factory * value * key)); (* suspended async lookups: token -> (factory, the object its body will return, the requested key) *)
+  waiters : list (nat * (key * key)); (* async lookups waiting for a generation already in flight:
+                                         token -> (requested key, key identifying the factory) *)
   blockexc : bool                   (* the `async with` block was left with an exception *)
 }.
 
@@ -119,7 +122,6 @@ Fixpoint ndel {V} (k : nat) (l : list (nat * V)) : list (nat * V) :=
   | (k', v') :: r => if Nat.eqb k k' then ndel k r else (k', v') :: ndel k r
   end.
 
-Definition count (f : nat) (l : list (nat * nat)) : nat := match nfind f l with Some n => n | None => 0 end.
 
 (* store [c] under (t, name) for every t of [ts] *)
 Fixpoint ins_all {V} (ts : list ty) (name : string) (v : V) (l : list (key * V)) : list (key * V) :=
@@ -127,6 +129,8 @@ Fixpoint ins_all {V} (ts : list ty) (name : string) (v : V) (l : list (key * V))
   | [] => l
   | t :: r => ins_all r name v (ins (t, name) v l)
   end.
+
+Definition count (k : key) (l : list (key * nat)) : nat := match find k l with Some n => n | None => 0 end.
 
 Definition taken {V} (l : list (key * V)) (name : string) (t : ty) : bool :=
   match find (t, name) l with Some _ => true | None => false end.
@@ -160,15 +164,16 @@ Fixpoint in_states (s : lstate) (l : list lstate) : bool :=
   | y :: r => lstate_eqb s y || in_states s r
   end.
 
-Definition set_life (x : ctx) v := Ctx (cid x) (parent x) v (res x) (facs x) (td x) (evlog x) (next_local x) (calls x) (pending x) (blockexc x).
-Definition set_res (x : ctx) v := Ctx (cid x) (parent x) (life x) v (facs x) (td x) (evlog x) (next_local x) (calls x) (pending x) (blockexc x).
-Definition set_facs (x : ctx) v := Ctx (cid x) (parent x) (life x) (res x) v (td x) (evlog x) (next_local x) (calls x) (pending x) (blockexc x).
-Definition set_td (x : ctx) v := Ctx (cid x) (parent x) (life x) (res x) (facs x) v (evlog x) (next_local x) (calls x) (pending x) (blockexc x).
-Definition set_evlog (x : ctx) v := Ctx (cid x) (parent x) (life x) (res x) (facs x) (td x) v (next_local x) (calls x) (pending x) (blockexc x).
-Definition set_next (x : ctx) v := Ctx (cid x) (parent x) (life x) (res x) (facs x) (td x) (evlog x) v (calls x) (pending x) (blockexc x).
-Definition set_calls (x : ctx) v := Ctx (cid x) (parent x) (life x) (res x) (facs x) (td x) (evlog x) (next_local x) v (pending x) (blockexc x).
-Definition set_pending (x : ctx) v := Ctx (cid x) (parent x) (life x) (res x) (facs x) (td x) (evlog x) (next_local x) (calls x) v (blockexc x).
-Definition set_blockexc (x : ctx) v := Ctx (cid x) (parent x) (life x) (res x) (facs x) (td x) (evlog x) (next_local x) (calls x) (pending x) v.
+Definition set_life (x : ctx) v := Ctx (cid x) (parent x) v (res x) (facs x) (td x) (evlog x) (next_local x) (calls x) (pending x) (waiters x) (blockexc x).
+Definition set_res (x : ctx) v := Ctx (cid x) (parent x) (life x) v (facs x) (td x) (evlog x) (next_local x) (calls x) (pending x) (waiters x) (blockexc x).
+Definition set_facs (x : ctx) v := Ctx (cid x) (parent x) (life x) (res x) v (td x) (evlog x) (next_local x) (calls x) (pending x) (waiters x) (blockexc x).
+Definition set_td (x : ctx) v := Ctx (cid x) (parent x) (life x) (res x) (facs x) v (evlog x) (next_local x) (calls x) (pending x) (waiters x) (blockexc x).
+Definition set_evlog (x : ctx) v := Ctx (cid x) (parent x) (life x) (res x) (facs x) (td x) v (next_local x) (calls x) (pending x) (waiters x) (blockexc x).
+Definition set_next (x : ctx) v := Ctx (cid x) (parent x) (life x) (res x) (facs x) (td x) (evlog x) v (calls x) (pending x) (waiters x) (blockexc x).
+Definition set_calls (x : ctx) v := Ctx (cid x) (parent x) (life x) (res x) (facs x) (td x) (evlog x) (next_local x) v (pending x) (waiters x) (blockexc x).
+Definition set_pending (x : ctx) v := Ctx (cid x) (parent x) (life x) (res x) (facs x) (td x) (evlog x) (next_local x) (calls x) v (waiters x) (blockexc x).
+Definition set_waiters (x : ctx) v := Ctx (cid x) (parent x) (life x) (res x) (facs x) (td x) (evlog x) (next_local x) (calls x) (pending x) v (blockexc x).
+Definition set_blockexc (x : ctx) v := Ctx (cid x) (parent x) (life x) (res x) (facs x) (td x) (evlog x) (next_local x) (calls x) (pending x) (waiters x) v.
 
 (* store a freshly generated object: only under those keys of the factory that are still free
    in this context; the container and the event carry exactly the types stored; nothing is
@@ -186,12 +191,24 @@ Definition store_generated (x : ctx) (f : factory) (v : value) : ctx :=
   end.
 
 (* the factory body starts: a new object identity is drawn and the invocation is counted *)
+(* within one context a factory is identified by its first key (the conflict check makes it
+   unique; the code keys its table of generations in flight the same way) *)
+Definition fkey (f : factory) : key := (hd 0 (ftypes f), fname f).
+
 Definition start_factory (x : ctx) (f : factory) : ctx * value :=
-  (set_calls (set_next x (S (next_local x))) (nins (fid f) (S (count (fid f) (calls x))) (calls x)),
+  (set_calls (set_next x (S (next_local x))) (ins (fkey f) (S (count (fkey f) (calls x))) (calls x)),
    Gen (cid x) (fid f) (next_local x)).
 
-Definition add_pending (x : ctx) tok (f : factory) (v : value) : ctx :=
-  set_pending x (nins tok (f, v) (pending x)).
+(* is a generation by this factory in flight (suspended inside the factory body)? *)
+Definition generating (x : ctx) (fk : key) : bool :=
+  existsb (fun p => key_eqb (fkey (fst (fst (snd p)))) fk) (pending x).
+Definition tok_used (x : ctx) (tok : nat) : bool :=
+  match nfind tok (pending x), nfind tok (waiters x) with None, None => false | _, _ => true end.
+Definition add_waiter (x : ctx) tok (k fk : key) : ctx := set_waiters x (nins tok (k, fk) (waiters x)).
+Definition del_waiter (x : ctx) tok : ctx := set_waiters x (ndel tok (waiters x)).
+
+Definition add_pending (x : ctx) tok (f : factory) (v : value) (k : key) : ctx :=
+  set_pending x (nins tok (f, v, k) (pending x)).
 Definition del_pending (x : ctx) tok : ctx := set_pending x (ndel tok (pending x)).
 
 (* add_resource: the types registered are those given, else the class of the value *)
@@ -258,13 +275,17 @@ Definition local_step (a : action) (x : ctx) : ctx * out :=
           end
       end
   | AGetBegin tok t name optional =>
+      (* a token names one lookup in progress; reusing a live one is outside the protocol *)
+      if tok_used x tok then (x, Invalid) else
       match find (t, name) (res x) with
       | Some c => (x, Val (cvalue c))
       | None =>
           match find (t, name) (facs x) with
           | Some f =>
+              (* another task is generating this resource: wait for it, do not call the factory *)
+              if generating x (fkey f) then (add_waiter x tok (t, name) (fkey f), Pending) else
               match fkind_of f with
-              | FAsyncSusp => let '(x1, v) := start_factory x f in (add_pending x1 tok f v, Pending)
+              | FAsyncSusp => let '(x1, v) := start_factory x f in (add_pending x1 tok f v (t, name), Pending)
               | _ => let '(x1, v) := start_factory x f in (store_generated x1 f v, Val v)
               end
           | None => (x, not_found optional)
@@ -272,10 +293,22 @@ Definition local_step (a : action) (x : ctx) : ctx * out :=
       end
   | AGetEnd tok =>
       match nfind tok (pending x) with
-      | Some (f, v) =>
-          (* no lifecycle re-check after the await, as in the code *)
-          (store_generated (del_pending x tok) f v, Val v)
-      | None => (x, Invalid)
+      | Some (f, v, k) =>
+          (* no lifecycle re-check after the await, as in the code; the caller receives what
+             the requested key resolves to now (a resource added meanwhile wins) *)
+          let x' := store_generated (del_pending x tok) f v in
+          (x', match find k (res x') with Some c => Val (cvalue c) | None => Invalid end)
+      | None =>
+          match nfind tok (waiters x) with
+          | Some (k, fk) =>
+              (* woken when the generation it waited for has finished; looks the pair up again *)
+              if generating x fk then (x, Invalid) else
+              match find k (res x) with
+              | Some c => (del_waiter x tok, Val (cvalue c))
+              | None => (x, Invalid)    (* factories of the model never fail *)
+              end
+          | None => (x, Invalid)
+          end
       end
   | AGetResources t => (x, Map (get_resources x t))
   | AAddTeardown cb =>
@@ -289,12 +322,12 @@ Definition local_step (a : action) (x : ctx) : ctx * out :=
 Inductive op := New (p : option nat) | At (c : nat) (a : action).
 Definition state := list ctx.
 
-Definition root_ctx (i : nat) : ctx := Ctx i None Inactive [] [] [] [] 0 [] [] false.
+Definition root_ctx (i : nat) : ctx := Ctx i None Inactive [] [] [] [] 0 [] [] [] false.
 
 (* Context.__init__: copy the parent's non-generated resources and its factory table *)
 Definition snapshot (i : nat) (p : ctx) : ctx :=
   Ctx i (Some (cid p)) Inactive (filter (fun kc => negb (cgen (snd kc))) (res p)) (facs p)
-      [] [] 0 [] [] false.
+      [] [] 0 [] [] [] false.
 
 Fixpoint update (s : state) (c : nat) (x : ctx) : state :=
   match s, c with
